@@ -92,7 +92,7 @@ def run_unit(u):
                     with budget(5):
                         f = p.parse(text)
                         cyc = ForestDump(num, f.result).cyclic
-                        n = None if cyc else len(f)
+                        n = None if cyc else f.solutions      # len() cannot exceed sys.maxsize in CPython
                         idxs = [] if cyc else list(range(min(n, TREE_CAP)))
                         if n and n > TREE_CAP:
                             idxs += sorted({rng.randrange(n) for _ in range(10)} | {n - 1})
